@@ -45,8 +45,9 @@ class MpOps:
         return mp.power(a, b)
 
 
-def evaluate(fn, ops, params, fields):
-    """value of the function's return expression. params: name -> value; fields: name -> value (members of *this)"""
+def evaluate(fn, ops, params, fields, opaque=None):
+    """value of the function's return expression. params: name -> value; fields: name -> value (members of *this);
+    opaque: member-function name -> callable, for members that are not closed forms (tabulated profiles)"""
     env = {}
     for p in fn["params"]:
         if p["name"] not in params:
@@ -95,6 +96,8 @@ def evaluate(fn, ops, params, fields):
                 return ops.pow(ev(e["args"][0]), ev(e["args"][1]))
             if name in ops.fn and len(e["args"]) == 1:
                 return ops.fn[name](ev(e["args"][0]))
+            if opaque and name in opaque and e.get("this") is not None and e["this"].get("k") == "This":
+                return opaque[name](*[ev(a) for a in e["args"]])
         raise AnalysisBroken("expression %s (%s) in %s is outside the closed-form fragment" % (k, ir.show(e)[:60], fn["qn"]))
 
     def run(stmts):
